@@ -3,6 +3,7 @@ package rules
 import (
 	"fmt"
 	"go/ast"
+	"go/token"
 	"go/types"
 	"regexp"
 	"sort"
@@ -43,7 +44,54 @@ func scCollect(info *types.Info, fd *ast.FuncDecl) scGuards {
 		return res
 	}
 	re := regexp.MustCompile(`\b` + regexp.QuoteMeta(recvName) + `\b`)
-	norm := func(e ast.Expr) string { return re.ReplaceAllString(exprString(e), "recv") }
+	// a presence flag kept in a local (`var has uint8; if recv.X != nil { has = 1 }` … `if has == 1`) stands for the
+	// condition under which it is set
+	flagCond := func(e ast.Expr) ast.Expr {
+		e = unparen(e)
+		var id *ast.Ident
+		switch x := e.(type) {
+		case *ast.Ident:
+			id = x
+		case *ast.BinaryExpr:
+			if lit, ok := unparen(x.Y).(*ast.BasicLit); ok && (x.Op == token.EQL && lit.Value == "1" || x.Op == token.NEQ && lit.Value == "0") {
+				id, _ = unparen(x.X).(*ast.Ident)
+			}
+		}
+		if id == nil {
+			return nil
+		}
+		o := info.Uses[id]
+		if o == nil {
+			return nil
+		}
+		var found ast.Expr
+		n := 0
+		ast.Inspect(fd.Body, func(y ast.Node) bool {
+			is, ok := y.(*ast.IfStmt)
+			if !ok || is.Else != nil || len(is.Body.List) != 1 {
+				return true
+			}
+			as, ok := is.Body.List[0].(*ast.AssignStmt)
+			if !ok || len(as.Lhs) != 1 || len(as.Rhs) != 1 || identObj(info, as.Lhs[0]) != o {
+				return true
+			}
+			if tv, ok := info.Types[as.Rhs[0]]; ok && tv.Value != nil && (tv.Value.ExactString() == "1" || tv.Value.ExactString() == "true") {
+				found = is.Cond
+				n++
+			}
+			return true
+		})
+		if n == 1 {
+			return found
+		}
+		return nil
+	}
+	norm := func(e ast.Expr) string {
+		if fc := flagCond(e); fc != nil {
+			e = fc
+		}
+		return re.ReplaceAllString(exprString(e), "recv")
+	}
 	mentionsErr := func(e ast.Expr) bool {
 		found := false
 		ast.Inspect(e, func(n ast.Node) bool {
